@@ -51,6 +51,9 @@ class P3(P1):
 
 @desper.event_handler('on_add', 'on_remove')
 class PH(Base):
+    def __len__(self):      # a legal handler processor may be falsy
+        return 0
+
     def on_add(self):
         self.log.append((self.label, 'on_add', self.world))
 
@@ -69,13 +72,17 @@ class ProcDriver:
     name = 'processors'
 
     def __init__(self, classes=('P1', 'P2', 'P3', 'PH'), prios=PRIOS,
-                 dts=(0, 0.5)):
+                 dts=(0, 0.5), toggles=True, max_postponed=3):
+        self.toggles = toggles
+        self.max_postponed = max_postponed
         self.classes = classes
         self.prios = prios
         self.dts = dts
 
     def params(self):
-        return dict(classes=self.classes, priorities=self.prios, dts=self.dts)
+        return dict(classes=self.classes, priorities=self.prios, dts=self.dts,
+                    dispatch_toggles=self.toggles,
+                    max_postponed=self.max_postponed)
 
     def initial(self):
         ctx = Ctx()
@@ -86,10 +93,16 @@ class ProcDriver:
         ctx.seq = 0
         ctx.counter = 0
         ctx.keep = []
+        ctx.enabled = True
+        ctx.postponed = []
         return ctx
 
     def ops(self, ctx):
+        if not ctx.enabled and len(ctx.postponed) >= self.max_postponed:
+            return [('enable',)]
         ops = []
+        if self.toggles:
+            ops.append(('disable',) if ctx.enabled else ('enable',))
         for c in self.classes:
             for p in self.prios:
                 ops.append(('add', c, p, True))
@@ -145,11 +158,8 @@ class ProcDriver:
             if inst.world is not w:
                 raise Violation('processor_knows_world',
                                 f'{inst}.world is {inst.world!r}')
-            got = ctx.log[mark:]
-            if got != expect:
-                raise Violation('add_callbacks',
-                                f'{op}: callbacks {got}, expected {expect}',
-                                replaced=old is not None)
+            self._callbacks(ctx, op, mark, expect, 'add_callbacks',
+                            replaced=old is not None)
         elif op[0] == 'remove':
             _, cname = op
             klass = CLASSES[cname]
@@ -179,10 +189,24 @@ class ProcDriver:
                 ctx.order.remove(hit[0])
                 expect = ([(got.label, 'on_remove', w)]
                           if isinstance(got, PH) else [])
-            if ctx.log[mark:] != expect:
-                raise Violation('remove_callbacks',
-                                f'{op}: callbacks {ctx.log[mark:]}, expected '
-                                f'{expect}')
+            self._callbacks(ctx, op, mark, expect, 'remove_callbacks')
+        elif op[0] == 'disable':
+            w.dispatch_enabled = False
+            ctx.enabled = False
+        elif op[0] == 'enable':
+            ctx.enabled = True
+            try:
+                w.dispatch_enabled = True
+            except Exception as exc:
+                raise Violation('enable_raised', f'{exc!r}')
+            got = ctx.log[mark:]
+            if got != ctx.postponed:
+                raise Violation('postponed_processor_callbacks',
+                                f'postponed {ctx.postponed}, delivered {got}',
+                                lost=len(got) < len(ctx.postponed))
+            if ctx.postponed:
+                ctx.hits['postponed_processor_callback_released'] += 1
+            ctx.postponed = []
         elif op[0] == 'process':
             dt = op[1]
             try:
@@ -200,6 +224,19 @@ class ProcDriver:
                                                                   expect)),
                     duplicates=len(got) != len(set(got)))
         del ctx.log[mark:]
+
+    def _callbacks(self, ctx, op, mark, expect, clause, **features):
+        got = ctx.log[mark:]
+        if ctx.enabled:
+            if got != expect:
+                raise Violation(clause, f'{op}: callbacks {got}, expected '
+                                f'{expect}', disabled=False, **features)
+        else:
+            if got:
+                raise Violation(clause, f'{op}: {got} delivered while '
+                                f'dispatching is disabled', disabled=True,
+                                **features)
+            ctx.postponed.extend(expect)
 
     def check(self, ctx):
         w = ctx.world
@@ -248,7 +285,11 @@ class ProcDriver:
             if isinstance(o, Base):
                 return '~' + o.label
             return None
-        return (canon((ctx.world,), namer),
+        pend = tuple((names.get(id(next((k for k in ctx.keep
+                                             if k.label == lab), None)),
+                                '~detached'), ev)
+                     for lab, ev, _ in ctx.postponed)
+        return (canon((ctx.world,), namer), ctx.enabled, pend,
                 tuple((type(x[0]).__name__, x[1]) for x in ctx.order))
 
 
@@ -325,7 +366,8 @@ def run(tier, rep):
     ]
     rep.require_hits(replace_same_type=1, priority_tie=1,
                      explicit_zero_or_negative=1, remove_by_supertype=1,
-                     readd_attached_instance=1, insort_among_equal=1)
+                     readd_attached_instance=1, insort_among_equal=1,
+                     postponed_processor_callback_released=1)
     for name, (driver, kw) in drivers(tier).items():
         kernel.explore(driver, rep, part=name, params=driver.params(), **kw)
     n = 5 if tier == 'quick' else 6
